@@ -54,8 +54,23 @@ impl std::fmt::Display for AssetClass {
     }
 }
 
-#[derive(Serialize, Deserialize, Debug, Clone, PartialEq, Eq)]
+#[derive(Serialize, Deserialize, Debug, Clone)]
 pub struct CanonicalAssets(HashMap<AssetClass, i128>);
+
+// Equality is semantic: an entry with amount zero is the same as no entry at all,
+// regardless of how the value was constructed.
+impl PartialEq for CanonicalAssets {
+    fn eq(&self, other: &Self) -> bool {
+        let covers = |a: &Self, b: &Self| {
+            a.0.iter()
+                .all(|(class, amount)| *amount == b.0.get(class).copied().unwrap_or(0))
+        };
+
+        covers(self, other) && covers(other, self)
+    }
+}
+
+impl Eq for CanonicalAssets {}
 
 impl std::fmt::Display for CanonicalAssets {
     fn fmt(&self, f: &mut std::fmt::Formatter<'_>) -> std::fmt::Result {
@@ -213,7 +228,7 @@ impl CanonicalAssets {
     }
 
     pub fn is_only_naked(&self) -> bool {
-        self.iter().all(|(x, _)| x.is_naked())
+        self.iter().all(|(x, amount)| x.is_naked() || *amount == 0)
     }
 
     pub fn as_homogenous_asset(&self) -> Option<(AssetClass, i128)> {
